@@ -151,7 +151,9 @@ func hashFromString(s string, h hash.Hash, seed []byte) (int, error) {
 	sum := h.Sum(nil)
 	reader := bytes.NewReader(sum)
 	var result uint32
-	err := binary.Read(reader, binary.NativeEndian, &result)
+	// Decode with a fixed byte order (not binary.NativeEndian): every node must derive the
+	// same lookup table from the same backends, whatever its CPU architecture.
+	err := binary.Read(reader, binary.LittleEndian, &result)
 	if err != nil {
 		return 0, err
 	}
